@@ -259,3 +259,45 @@ class FlagTracker:
                 return {v == "N"}
             return both
         return both
+
+
+def must_facts(cfg: CFG, at: Atomizer, node: Node, tracker=None,
+               start: Node | None = None) -> set[tuple]:
+    """Facts (subject, op, value, truth) such that every path from the entry to
+    *node* takes an edge on which the atom has that truth value."""
+    by_atom: dict[tuple, list[tuple[Node, str]]] = {}
+    for n in cfg.nodes:
+        if n.kind != "test":
+            continue
+        a = at.node_atom(n)
+        if a is None:
+            continue
+        for lab in ("T", "F"):
+            truth = (lab == "T") ^ a.flip
+            by_atom.setdefault((a.subject, a.op, a.value, truth), []).append((n, lab))
+    out = set()
+    src = [start or cfg.entry]
+    base = cfg.reach(src, tracker=tracker)
+    if node not in base:
+        return out
+    for key, edges in by_atom.items():
+        r = cfg.reach(src, blocked_edges=edges, tracker=tracker)
+        if node not in r:
+            out.add(key)
+    return out
+
+
+def has_fact(facts: set[tuple], subject: str, op: str, value, truth: bool) -> bool:
+    return (subject, op, value, truth) in facts
+
+
+def guarded_any(cfg: CFG, at: Atomizer, node: Node, alternatives, tracker=None) -> bool:
+    """Every path to *node* takes an edge on which at least one of the
+    alternative facts holds.  alternatives: iterable of predicates
+    pred(atom) -> truth value (True/False) under which the fact holds, or None."""
+    edges = []
+    for pred in alternatives:
+        edges += cfg.guard_edges(lambda n, p=pred: at.label_when(n, p))
+    if not edges:
+        return False
+    return node not in cfg.reach([cfg.entry], blocked_edges=edges, tracker=tracker)
